@@ -435,17 +435,21 @@ Qed.
 Lemma eval_sim : forall en e ts, Sim (leaf ts) (eval en e ts) (fun r => leaf (snd r)).
 Proof. intros. apply eval_f_sim. Qed.
 
-Lemma call_fn_sim : forall sd params rty args ts, Sim (leaf ts) (call_fn sd params rty args ts) (fun r => leaf (snd r)).
+Lemma call_gen_sim : forall sd mk rty args ts, Sim (leaf ts) (call_gen sd mk rty args ts) (fun r => leaf (snd r)).
 Proof.
-  intros. unfold call_fn, from_py_all.
+  intros. unfold call_gen, from_py_all.
   eapply Sim_bind; [apply map_m_sim; intros; apply from_py_sim | intros ? ?].
   eapply Sim_bind; [apply use_all_sim | intros ? ?]. sim_go.
   eapply Sim_bind.
   - apply iter_i_sim. intros i a ts1. sim_go. eapply Sim_bind; [apply upd_fresh_sim | intros ? ?]. sim_go.
   - intros ? ?. sim_go. apply unpack_sim.
 Qed.
+Lemma call_fn_sim : forall sd params rty args ts, Sim (leaf ts) (call_fn sd params rty args ts) (fun r => leaf (snd r)).
+Proof. intros. apply call_gen_sim. Qed.
+Lemma call_opaque_sim : forall sd b args ts, Sim (leaf ts) (call_opaque sd b args ts) (fun r => leaf (snd r)).
+Proof. intros. apply call_gen_sim. Qed.
 
-#[export] Hint Resolve eval_sim call_fn_sim from_py_sim unpack_sim upd_fresh_sim : sim.
+#[export] Hint Resolve eval_sim call_fn_sim call_opaque_sim from_py_sim unpack_sim upd_fresh_sim : sim.
 
 Lemma mutate_err : forall m cur v e, mutate m cur v = Err e -> not_leafy e.
 Proof.
@@ -460,6 +464,7 @@ Lemma exec_sim : forall sd s en ts, Sim (leaf ts) (exec sd s en ts) (fun r => le
 Proof.
   intros sd s en ts. destruct s; unfold exec, eval_all.
   - sim_go.
+  - eapply Sim_bind; [apply map_m_sim; intros; apply eval_sim | intros ? ?]. sim_go.
   - eapply Sim_bind; [apply map_m_sim; intros; apply eval_sim | intros ? ?]. sim_go.
   - sim_go.
   - sim_go.
